@@ -448,6 +448,45 @@ pub trait Sut: Clone {
     }
 }
 
+/// C19 lock-step: once an object has been cleared, a freshly constructed object of the same
+/// configuration receives the same calls; their observable answers must stay identical.
+#[derive(Clone)]
+pub struct LockStep<S: Sut> {
+    pub main: S,
+    pub shadow: Option<S>,
+    pub cfg: Value,
+}
+impl<S: Sut> LockStep<S> {
+    pub fn new(cfg: &Value) -> Self {
+        LockStep { main: S::new(cfg), shadow: None, cfg: cfg.clone() }
+    }
+    pub fn apply(&mut self, op: &Value, other: Option<&S>) -> Value {
+        let mut rec = self.main.apply(op, other);
+        if rec["skip"] == true {
+            if let Some(sh) = self.shadow.as_mut() {
+                let _ = sh.apply(op, other);
+            }
+            return rec;
+        }
+        if let Some(sh) = self.shadow.as_mut() {
+            let r2 = sh.apply(op, other);
+            let mut same = true;
+            if let (Value::Object(a), Value::Object(b)) = (&rec, &r2) {
+                for (k, v) in a {
+                    if k.ends_with("_post") || k == "res" || k == "ret" {
+                        same &= b.get(k) == Some(v);
+                    }
+                }
+            }
+            rec["shadow_same"] = json!(same);
+        }
+        if rec["res"] == "cleared" {
+            self.shadow = Some(S::new(&self.cfg));
+        }
+        rec
+    }
+}
+
 fn merge_into(dst: &mut Map<String, Value>, src: Value) {
     if let Value::Object(m) = src {
         for (k, v) in m {
@@ -471,12 +510,13 @@ pub struct ReplayStats {
     pub first_drift: Vec<Value>,
 }
 
-struct Node<S> {
-    sut: S,
+struct Node<S: Sut> {
+    sut: LockStep<S>,
     hid: u64,
     kind: String,
 }
-fn put_rec<S: Sut>(out: &mut Out, last_uid: &mut usize, sut: &S, rec: Value) {
+fn put_rec<S: Sut>(out: &mut Out, last_uid: &mut usize, sut: &LockStep<S>, rec: Value) {
+    let sut = &sut.main;
     if sut.uid() != *last_uid {
         let mut h = sut.header();
         h["k"] = json!("hdr");
@@ -544,17 +584,17 @@ pub fn graph_replay<S: Sut>(gen_path: &str, out: &mut Out, hist: &mut Out, mut m
                         t2["cfg"] = cfg;
                         t2
                     };
-                    let sut = S::new(&t["cfg"]);
+                    let sut = LockStep::<S>::new(&t["cfg"]);
                     if !header_written {
-                        let mut h = sut.header();
+                        let mut h = sut.main.header();
                         h["k"] = json!("hdr");
                         h["s"] = json!(S::TAG);
                         out.put(&h);
-                        last_uid = sut.uid();
+                        last_uid = sut.main.uid();
                         header_written = true;
                         cfg0 = t["cfg"].clone();
                         if let Value::Object(c) = &mut cfg0 {
-                            if let Value::Object(h) = sut.header() {
+                            if let Value::Object(h) = sut.main.header() {
                                 for (k, v) in h {
                                     c.entry(k).or_insert(v);
                                 }
@@ -562,7 +602,7 @@ pub fn graph_replay<S: Sut>(gen_path: &str, out: &mut Out, hist: &mut Out, mut m
                         }
                     }
                     hist.put(&json!({"hid": next_hid, "init": t["cfg"]}));
-                    let ms = sut.mstate();
+                    let ms = sut.main.mstate();
                     if S::COMPARE_MSTATE && ms != t["st"] {
                         st.drift += 1;
                         if st.first_drift.len() < 5 {
@@ -610,7 +650,7 @@ pub fn graph_replay<S: Sut>(gen_path: &str, out: &mut Out, hist: &mut Out, mut m
                     tid += 1;
                     CALL_TID.store(tid, Ordering::SeqCst);
                     note_call(json!({"hid": hid, "op": op}));
-                    let mpre = if opts.mall && mout.is_some() { sut.mstate() } else { Value::Null };
+                    let mpre = if opts.mall && mout.is_some() { sut.main.mstate() } else { Value::Null };
                     let rec = sut.apply(&op, None);
                     st.executed += 1;
                     if let (true, Some(m)) = (opts.mall, mout.as_deref_mut()) {
@@ -618,7 +658,7 @@ pub fn graph_replay<S: Sut>(gen_path: &str, out: &mut Out, hist: &mut Out, mut m
                             m.put(&json!({"k":"hdr","s":S::TAG,"cfg":cfg0}));
                             mall_hdr_written = true;
                         }
-                        let post = if rec["res"] == "panic" { json!("none") } else { sut.mstate() };
+                        let post = if rec["res"] == "panic" { json!("none") } else { sut.main.mstate() };
                         m.put(&json!({"k":"m","tid":tid,"op":op,"pre":mpre,"post":post,"res":rec["res"]}));
                     }
                     if let Some(tg) = rec["tags"].as_array() {
@@ -644,7 +684,7 @@ pub fn graph_replay<S: Sut>(gen_path: &str, out: &mut Out, hist: &mut Out, mut m
                     let altw = S::is_alt_worthy(&rec);
                     let altkind = rec["res"].as_str().unwrap_or("").to_string();
                     // M-level comparison (diagnostic)
-                    let ms = if panicked { Value::Null } else if S::COMPARE_MSTATE { sut.mstate() } else { t["post"].clone() };
+                    let ms = if panicked { Value::Null } else if S::COMPARE_MSTATE { sut.main.mstate() } else { t["post"].clone() };
                     let res_ok = t["res"].is_null() || rec["res"] == t["res"] || rec["mres"] == t["res"];
                     let spec_panics = t["res"] == "panic";
                     if (panicked != spec_panics) || (!panicked && (ms != t["post"] || !res_ok)) {
@@ -710,7 +750,7 @@ pub fn graph_replay<S: Sut>(gen_path: &str, out: &mut Out, hist: &mut Out, mut m
                     full.insert("hid".into(), json!(n.hid));
                     full.insert("alt".into(), json!(n.kind));
                     full.insert("op".into(), op.clone());
-                    let ms = if rec["res"] == "panic" { Value::Null } else if S::COMPARE_MSTATE { sut.mstate() } else { t["post"].clone() };
+                    let ms = if rec["res"] == "panic" { Value::Null } else if S::COMPARE_MSTATE { sut.main.mstate() } else { t["post"].clone() };
                     if ms != t["post"] {
                         st.drift += 1;
                         full.insert("drift".into(), json!(true));
@@ -731,7 +771,7 @@ pub fn graph_replay<S: Sut>(gen_path: &str, out: &mut Out, hist: &mut Out, mut m
         // operands must share configuration and hasher: group by universe
         let mut groups: HashMap<usize, Vec<&String>> = HashMap::new();
         for k in &keys {
-            groups.entry(nodes[*k].sut.uid()).or_default().push(*k);
+            groups.entry(nodes[*k].sut.main.uid()).or_default().push(*k);
         }
         let mut gids: Vec<usize> = groups.keys().cloned().collect();
         gids.sort_by_key(|g| groups[g][0].clone());
@@ -759,12 +799,12 @@ pub fn graph_replay<S: Sut>(gen_path: &str, out: &mut Out, hist: &mut Out, mut m
             let na = &nodes[grp[ia as usize]];
             let nb = &nodes[grp[ib as usize]];
             let mut sut = na.sut.clone();
-            let op = sut.pair_op(pair_op, &mut rng);
+            let op = sut.main.pair_op(pair_op, &mut rng);
             tid += 1;
             CALL_TID.store(tid, Ordering::SeqCst);
             note_call(json!({"hid": na.hid, "op": op, "other": nb.hid}));
-            let b_before = nb.sut.mstate();
-            let rec = sut.apply(&op, Some(&nb.sut));
+            let b_before = nb.sut.main.mstate();
+            let rec = sut.apply(&op, Some(&nb.sut.main));
             st.pairs += 1;
             let mut full = Map::new();
             full.insert("k".into(), json!("p"));
@@ -774,8 +814,8 @@ pub fn graph_replay<S: Sut>(gen_path: &str, out: &mut Out, hist: &mut Out, mut m
             full.insert("other".into(), json!(nb.hid));
             full.insert("op".into(), op.clone());
             let mres = if rec["mres"].is_null() { rec["res"].clone() } else { rec["mres"].clone() };
-            let post = if rec["res"] == "panic" { json!("none") } else { sut.mstate() };
-            mout.put(&json!({"k":"m","tid":tid,"op":op,"pre":na.sut.mstate(),"b":b_before,"post":post,"res":mres}));
+            let post = if rec["res"] == "panic" { json!("none") } else { sut.main.mstate() };
+            mout.put(&json!({"k":"m","tid":tid,"op":op,"pre":na.sut.main.mstate(),"b":b_before,"post":post,"res":mres}));
             merge_into(&mut full, rec);
             put_rec(out, &mut last_uid, &sut, Value::Object(full));
         }
@@ -789,7 +829,7 @@ pub fn graph_replay<S: Sut>(gen_path: &str, out: &mut Out, hist: &mut Out, mut m
 /// Objects are created on first use from cfg.  Emits header + one P-record per step, and, if
 /// `mout` is given, one M-record per step (op, res, post dump) for M-level trace validation.
 pub fn run_scenario<S: Sut>(sc: &Value, out: &mut Out, mut mout: Option<&mut Out>, tid0: u64, sc_id: u64) -> u64 {
-    let mut objs: HashMap<String, S> = HashMap::new();
+    let mut objs: HashMap<String, LockStep<S>> = HashMap::new();
     let mut tid = tid0;
     let mut header_written = false;
     let steps = sc["steps"].as_array().cloned().unwrap_or_default();
@@ -797,15 +837,15 @@ pub fn run_scenario<S: Sut>(sc: &Value, out: &mut Out, mut mout: Option<&mut Out
         let name = stp["obj"].as_str().unwrap_or("a").to_string();
         for nm in [Some(name.clone()), stp["other"].as_str().map(|s| s.to_string())].into_iter().flatten() {
             if !objs.contains_key(&nm) {
-                let sut = S::new(&sc["cfg"]);
+                let sut = LockStep::<S>::new(&sc["cfg"]);
                 if !header_written {
-                    let mut h = sut.header();
+                    let mut h = sut.main.header();
                     h["k"] = json!("hdr");
                     h["s"] = json!(S::TAG);
                     h["sc"] = json!(sc_id);
                     out.put(&h);
                     if let Some(m) = mout.as_deref_mut() {
-                        m.put(&json!({"k":"hdr","s":S::TAG,"sc":sc_id,"cfg":sc["cfg"], "st": sut.mstate()}));
+                        m.put(&json!({"k":"hdr","s":S::TAG,"sc":sc_id,"cfg":sc["cfg"], "st": sut.main.mstate()}));
                     }
                     header_written = true;
                 }
@@ -815,9 +855,9 @@ pub fn run_scenario<S: Sut>(sc: &Value, out: &mut Out, mut mout: Option<&mut Out
         tid += 1;
         CALL_TID.store(tid, Ordering::SeqCst);
         note_call(json!({"scenario_step": stp}));
-        let other = stp["other"].as_str().map(|o| objs[o].clone());
+        let other = stp["other"].as_str().map(|o| objs[o].main.clone());
         let sut = objs.get_mut(&name).unwrap();
-        let mpre = if mout.is_some() { sut.mstate() } else { Value::Null };
+        let mpre = if mout.is_some() { sut.main.mstate() } else { Value::Null };
         let rec = sut.apply(&stp["op"], other.as_ref());
         if rec["skip"] == true {
             continue;
@@ -833,7 +873,7 @@ pub fn run_scenario<S: Sut>(sc: &Value, out: &mut Out, mut mout: Option<&mut Out
         if let Some(m) = mout.as_deref_mut() {
             let mres = if rec["mres"].is_null() { rec["res"].clone() } else { rec["mres"].clone() };
             let mut mr = json!({"k":"m","tid":tid,"obj":name,"op":stp["op"],"res":mres,"pre":mpre,
-                            "post": if rec["res"] == "panic" { json!("none") } else { sut.mstate() }});
+                            "post": if rec["res"] == "panic" { json!("none") } else { sut.main.mstate() }});
             if let Some(o) = &other {
                 mr["b"] = o.mstate();
             }
